@@ -51,7 +51,7 @@ def check_get_av(ctx):
         o = Obj(ci)
         if init is not None:
             Interp(repo).call(init[1], [], selfv=o)          # whatever else the constructor sets (caches, ...)
-        o.attrs['_wav'] = symarr('xw', (T,), unit=U)
+        o.attrs['_wav'] = symarr('xw', (T,), unit=sym('unit:Uw'))          # the table may be in any length unit (from_file(wav_unit=...)): symbolic
         o.attrs['_chi'] = symarr('chi', (T,), unit=sym('unit:cm').pow(2) / sym('unit:g'))
         return o
     I = Interp(repo)
